@@ -96,6 +96,26 @@ def scenario_digests(job, seed):
                 wf["tasks"][dst].pop("with")
             wf["tasks"][dst]["action"] = "core.echo"
             kind = "mutant-twinpublish"
+    elif r < 0.77:
+        # one string with several DIFFERENT expressions that all fail at run time (in an action input, a publish and
+        # the output): which failure is recorded must not depend on the hash seed
+        names = list(wf["tasks"])
+        lang = rng.choice(["yaql", "jinja"])
+        e = (lambda k: "<%% ctx(d_c19).%s %%>" % k) if lang == "yaql" else (lambda k: "{{ ctx('d_c19').%s }}" % k)
+        keys = ["kb", "ka", "kd", "kc", "ke"][: rng.randint(2, 5)]
+        text = " and ".join(e(k) for k in keys)
+        wf.setdefault("vars", []).append({"d_c19": {"present": 1}})
+        tn = rng.choice(names)
+        where = rng.choice(["input", "publish", "output"])
+        if where == "input":
+            wf["tasks"][tn].pop("with", None)
+            wf["tasks"][tn]["action"] = "core.echo"
+            wf["tasks"][tn]["input"] = {"message": text}
+        elif where == "publish":
+            wf["tasks"][tn].setdefault("next", []).insert(0, {"publish": [{"pm_c19": text}], "do": "noop"})
+        else:
+            wf.setdefault("output", []).append({"om_c19": text})
+        kind = "runtime-multi-error"
     out = dict(kind=kind, steps=[])
     try:
         spec = native_specs.WorkflowSpec(copy.deepcopy(wf))
